@@ -510,6 +510,16 @@ def render_terminates(ctx, crate, crs, tag):
         if c.kind == "bool" and c.src and c.src.get("k") == "call" and c.src["t"]["f"]["name"] == "contains" and touches(c.src["t"], rep):
             sk = True
     ctx.ob(R, fn, "reported-candidates-are-skipped", sk, b.loc(), "a candidate already in `reported` is not expanded again")
+    # ... unconditionally: every push of a candidate's children lies behind the `not yet reported` edge of that test.  If the skip
+    # only applies to some candidates (area seed C04-19: leaves only) a shared inner node is expanded once per path to it and the
+    # message grows exponentially with the depth of stacked diamonds.
+    tests = [c for c in cs if c.kind == "bool" and c.src and c.src.get("k") == "call" and c.src["t"]["f"]["name"] == "contains" and touches(c.src["t"], rep)]
+    for i, t in pushes:
+        if not any(q.edge_dominates(b, sb, tg, i) for sb, tg in cand_edges):
+            continue
+        okd = any(q.edge_dominates(b, c.bb, c.target(False), i) for c in tests)
+        ctx.ob(R, fn, "children-pushed-only-if-not-yet-reported", okd, where_call(b, i),
+               "the push of a candidate's children is dominated by the `!reported.contains(candidate)` edge")
 
 
 # ------------------------------------------------------------------------------------------------
